@@ -37,11 +37,14 @@ type slots struct {
 	dvs map[string]segment.DocVisitState
 	sls map[string]segment.SynonymsList
 	sis map[string]segment.SynonymsIterator
+	vh  map[string]interface{} // vector index handles opened inside a `par` block (per goroutine)
+	par bool                   // this slot set belongs to one goroutine of a `par` block
 }
 
 func newSlots() *slots {
 	return &slots{pls: map[string]segment.PostingsList{}, its: map[string]segment.PostingsIterator{},
-		dvs: map[string]segment.DocVisitState{}, sls: map[string]segment.SynonymsList{}, sis: map[string]segment.SynonymsIterator{}}
+		dvs: map[string]segment.DocVisitState{}, sls: map[string]segment.SynonymsList{}, sis: map[string]segment.SynonymsIterator{},
+		vh: map[string]interface{}{}}
 }
 
 type Exec struct {
@@ -218,6 +221,7 @@ func (e *Exec) runPar(c *Cmd, body []*Cmd, out *bufio.Writer) {
 		go func(g int) {
 			defer wg.Done()
 			sl := newSlots()
+			sl.par = true
 			for r := 0; r < rounds; r++ {
 				res := make([]string, len(body))
 				// each goroutine starts at a different offset so that different
@@ -400,7 +404,14 @@ func (e *Exec) doBuild(c *Cmd) string {
 		mode = uint32(n)
 	}
 	docs := materialize(b)
-	sg, _, err := zap.VerifNew(docs, mode)
+	var sg segment.Segment
+	var err error
+	if mode == zap.DefaultChunkMode {
+		// the public entry point whenever it does the same thing
+		sg, _, err = (&zap.ZapPlugin{}).New(docs)
+	} else {
+		sg, _, err = zap.VerifNew(docs, mode)
+	}
 	if err != nil {
 		return errKind(err)
 	}
@@ -585,7 +596,12 @@ func (e *Exec) doMerge(c *Cmd, gsuffix string) string {
 	var size uint64
 	var err error
 	call := func() error {
-		maps, size, err = zap.VerifMerge(segs, drops, p, mode, ch, rep)
+		if mode == zap.DefaultChunkMode {
+			// the public entry point whenever it does the same thing
+			maps, size, err = (&zap.ZapPlugin{}).Merge(segs, drops, p, ch, rep)
+		} else {
+			maps, size, err = zap.VerifMerge(segs, drops, p, mode, ch, rep)
+		}
 		return err
 	}
 	extra := ""
@@ -784,6 +800,13 @@ func (e *Exec) doQuery(c *Cmd, sl *slots) string {
 			return errKind(err)
 		}
 		return bmList(bm)
+	case "dictpair":
+		return e.qDictPair(c, sg)
+	case "byteswritten":
+		if r, ok := sg.(interface{ BytesWritten() uint64 }); ok {
+			return fmt.Sprint(r.BytesWritten())
+		}
+		return "scripterror:nostat"
 	case "dv", "dvspec":
 		// dvspec: the same visit; the driver compares it with the source document named by src=
 		return e.qDv(c, sg, sl)
@@ -1114,6 +1137,49 @@ func (e *Exec) qDv(c *Cmd, sg segment.Segment, sl *slots) string {
 		return "-"
 	}
 	return strings.Join(parts, ";")
+}
+
+// qDictPair: two iterators of ONE dictionary value alive at the same time, stepped alternately
+// q dictpair <seg> <field> lo1= hi1= lo2= hi2=
+func (e *Exec) qDictPair(c *Cmd, sg segment.Segment) string {
+	dict, err := sg.Dictionary(c.Pos[2])
+	if err != nil {
+		return errKind(err)
+	}
+	var its [2]segment.DictionaryIterator
+	for k := 0; k < 2; k++ {
+		lo, err1 := boundOf(c.str(fmt.Sprintf("lo%d", k+1), "*"))
+		hi, err2 := boundOf(c.str(fmt.Sprintf("hi%d", k+1), "*"))
+		if err1 != nil || err2 != nil {
+			return "scripterror:bound"
+		}
+		its[k] = dict.AutomatonIterator(nil, lo, hi)
+	}
+	var outs [2][]string
+	done := [2]bool{}
+	for !done[0] || !done[1] {
+		for k := 0; k < 2; k++ {
+			if done[k] {
+				continue
+			}
+			en, err := its[k].Next()
+			if err != nil {
+				return errKind(err)
+			}
+			if en == nil {
+				done[k] = true
+				continue
+			}
+			outs[k] = append(outs[k], fmt.Sprintf("%s:%d", hx([]byte(en.Term)), en.Count))
+		}
+	}
+	f := func(x []string) string {
+		if len(x) == 0 {
+			return "-"
+		}
+		return strings.Join(x, ",")
+	}
+	return fmt.Sprintf("a=%s b=%s", f(outs[0]), f(outs[1]))
 }
 
 func (e *Exec) qThesTerms(c *Cmd, sg segment.Segment) string {
